@@ -38,7 +38,7 @@ def run(ctx):
         metas.append((s, rc, fc, raw))
         # oracle 1: the split (on the AHB parser alone)
         key = f"{s!r}|{sorted(rc.items())}|{sorted(fc.items())}"
-        desc = {"ahb_expression": s, "rc": rc, "fc": {k2: list(v) for k2, v in fc.items()}}
+        desc = {"ahb_expression": s, "rc": rc, "fc": {k2: list(v) for k2, v in fc.items()}, "packages": dict(valcorr.CURRENT_PACKAGES)}
         try:
             t = parse_ahb(s)
             got = []
@@ -130,7 +130,7 @@ def replay(path):
 
     r = json.load(open(path, encoding="utf-8"))
     inp = r["input"]
-    evalimpl.set_cer(rc=inp["rc"], hints={k: "H" + k for k in valcorr.HINTS}, fc={k: tuple(v) for k, v in inp["fc"].items()}, packages=dict(valcorr.PACKAGES))
+    evalimpl.set_cer(rc=inp["rc"], hints={k: "H" + k for k in valcorr.HINTS}, fc={k: tuple(v) for k, v in inp["fc"].items()}, packages=dict(inp.get("packages", valcorr.PACKAGES)))
     res = valcorr.resolved(inp["ahb_expression"])
     print("expected:", r["expected"], "| recorded:", r["observed"])
     print("now:", evalimpl.outcome(lambda: asyncio.run(evaluate_ahb_expression_tree(res[1]))) if res[0] == "ok" else res)
